@@ -1,4 +1,4 @@
-CONSTANTS U <- UQ  DevBoolIsInt = FALSE  DevHashByRep = FALSE  KeySeq <- KeysQ  MaxDepth = 0
+CONSTANTS U <- UQ  DevBoolSeq = FALSE  DevBoolKey = FALSE  DevHashByRep = FALSE  KeySeq <- KeysQ  MaxDepth = 0
 INIT InitTI
 NEXT NextTI
 INVARIANT Reflexive
